@@ -27,6 +27,20 @@ K_F19 = "F19:merge-two-massless-nan"
 K_F19H = "F19:hardsphere-two-massless-nan"
 
 
+DIMS = {}                # coverage.dimensions: name -> number of evaluated cases
+
+
+def dim(name, n=1):
+    DIMS[name] = DIMS.get(name, 0) + n
+
+
+REQUIRED_DIMS = ["N_active<N", "testparticle_type=1", "massless_particles", "variational_particles_nonzero", "dt<0",
+                 "shear_ghost_velocity", "zero_radius", "radius_ratio>=1e3", "exact_touch", "restitution_callback",
+                 "minimum_collision_velocity", "python_callable_resolver", "named_resolver_after_switching",
+                 "full_step_leapfrog", "impact_fast_movers", "root_box_layout", "com_offset_moving",
+                 "pending_list_realloc(>32)", "N_crosses_128", "step_mercurius", "step_trace", "step_whfast", "step_ias15",
+                 "track_energy_offset_merge", "integrate_split_exact_finish_time", "copy_restore_midrun",
+                 "file_restore_midrun", "user_add_remove_midrun", "free_particle_ap", "keep_sorted", "tree_gravity_direct_search"]
 VARIANT = ["0"] * 7      # RmVariant flags (5) + purge-flagged-at-end-of-search, determined in run()
 PURGE = [False]          # fixes/C13-tree-merge-remove-at-boundary.diff applied? (probed in run())
 RESFLAGS = {"merge": "0", "hs": "0"}     # massless guards of the built-in resolvers (probed in run())
@@ -408,6 +422,8 @@ def run_real(W, spec, res, steps=1):
     sim = make_sim(W, spec)
     calls = []
     hsrec = []
+    eorec = []
+    freed = []
     kind = res[0]
 
     def cb(simp, c):
@@ -428,7 +444,11 @@ def run_real(W, spec, res, steps=1):
                           (b.x, b.y, b.z, b.vx, b.vy, b.vz, b.m, b.r, b.last_collision))
             fn = {"merge": W.clib.reb_collision_resolve_merge, "hs": W.clib.reb_collision_resolve_hardsphere,
                   "halt": W.clib.reb_collision_resolve_halt}[kind]
+            eo0 = s.energy_offset
             out = fn(simp, c)
+            if kind == "merge" and spec.get("teo") and before is not None:
+                na = s.N_active
+                eorec.append((before, out, c.p1, c.p2, (s.N - s.N_var) if na == -1 else na, eo0, s.energy_offset, s.G))
             if before is not None:
                 a2 = s._particles[c.p1]; b2 = s._particles[c.p2]
                 hsrec.append((before, ((a2.x, a2.y, a2.z, a2.vx, a2.vy, a2.vz, a2.m, a2.r, a2.last_collision),
@@ -440,6 +460,8 @@ def run_real(W, spec, res, steps=1):
         return out
 
     sim.collision_resolve = cb
+    if kind == "script":
+        sim.free_particle_ap = lambda pp: freed.append(int(pp.contents._hash))
     maxr_pre = (sim.max_radius[0], sim.max_radius[1])
     if kind == "hs" and len(res) > 1 and res[1] is not None:
         eps = res[1]
@@ -455,7 +477,8 @@ def run_real(W, spec, res, steps=1):
         per_step.append(dict(pre=pre, calls=calls[n0:], post=pstate(sim), t=sim.t))
     return dict(sim=sim, calls=calls, hsrec=hsrec, state=pstate(sim), seed=sim.rand_seed, N=sim.N,
                 N_active=sim.N_active, nvar=sim.N_var, t=sim.t, dtl=sim.dt_last_done, tree=bool(sim._tree_root),
-                maxr=(sim.max_radius[0], sim.max_radius[1]), maxr_pre=maxr_pre, per_step=per_step, cb=cb)
+                maxr=(sim.max_radius[0], sim.max_radius[1]), maxr_pre=maxr_pre, per_step=per_step, cb=cb,
+                eorec=eorec, freed=freed)
 
 
 def probe_variant(W):
